@@ -497,6 +497,16 @@ func runGconc(c *Ctx) {
 			g := prepare(c, p)
 			popIdx := -1
 			var okVar *types.Var
+			decs := 0
+			for _, ev := range p.Events {
+				if incDecField(ev, running, token.DEC) {
+					decs++
+				}
+			}
+			if p.End == core.EndReturn {
+				a.note("R13b", name+"/exit-retires-once", d.Decl.Pos(), decs != 1, "every return of a worker follows exactly one running--",
+					sprintf("a worker returns after %d decrements of running: the counter drifts (idle is never reached, or more workers than the limit run)", decs), p)
+			}
 			for i, ev := range p.Events {
 				if (ev.Kind == core.KCall || ev.Kind == core.KEnter) && ev.Callee != nil && ev.Callee.Name() == "Pop" {
 					popIdx = i
